@@ -6,7 +6,8 @@
    The equivalence of whole modules is decided on the implementation by tools/props/c11.py (sampling). *)
 From Coq Require Import Ascii String ZArith NArith List Bool.
 Import ListNotations.
-From Cffi Require Import C11.Model C11.Gen C11.Proofs.
+From Cffi Require Import C11.Model C11.Gen C11.Proofs C11.Lookup.
+From Cffi Require C25.Model C25.Gen.
 Open Scope Z_scope.
 
 (* every emitted value is a byte, so the text \xHH in the generated b'...' literal denotes it *)
@@ -106,6 +107,13 @@ Theorem C11_int_constant : forall v, - 2 ^ 63 <= v < 2 ^ 64 -> decode_int 64 v =
 Proof. exact decode_int_correct. Qed.
 Print Assumptions C11_int_constant.
 
+(* the same with the stored sign and value as REGENERATED from ffiobj_init() of src/c/cdlopen.c on every run:
+   decoded constant = declared constant for every value in [-2^63, 2^64) *)
+Theorem C11_int_constant_regenerated : forall v, - 2 ^ 63 <= v < 2 ^ 64 ->
+  realize_global_int 64 (gen_intconst_neg v) (gen_intconst_value v) = v.
+Proof. exact gen_int_constant_correct. Qed.
+Print Assumptions C11_int_constant_regenerated.
+
 (* ... and the statement is false outside: 2^64 reads 0, -2^63-1 reads 2^63-1, while the in-line FFI keeps
    the exact Python integer (known finding int-const-outside-64bit, replayed on the implementation) *)
 Theorem C11_int_constant_refuted_outside :
@@ -122,6 +130,48 @@ Theorem C11_opcodes_are_odd_bytes :
   forallb (fun e => (0 <=? snd e) && (snd e <? 256) && Z.odd (snd e)) py_ops = true.
 Proof. exact gen_ops_are_bytes. Qed.
 Print Assumptions C11_opcodes_are_odd_bytes.
+
+(* ---- C11 x C25: the module exposes the declared names ----
+   For EVERY list gs of global records (CffiOp(op, arg), name) with pairwise distinct names made of bytes 1..:
+   sort it on the name as collect_step_tables does, emit b'<type_op><name>' per record, let ffiobj_init decode
+   the byte strings into nglobs[]; then search_in_globals (C25.Gen.gen_search_in: the binary search REGENERATED
+   from src/c/parse_c_type.c on every run) applied to the decoded table and the name of any declared record
+   returns an index, and the decoded entry at that index is exactly the declared (op, arg, name). *)
+Theorem C11_global_lookup : forall gs,
+  NoDup (map gname gs) -> Forall global_ok gs -> Forall (fun g => bytes_pos (gname g)) gs ->
+  forall op arg name, In (op, arg, name) gs ->
+  exists i, C25.Gen.gen_search_in (map (fun d => nkey (snd d)) (decoded_globals gs)) (nkey name) = Some i
+            /\ nth i (decoded_globals gs) ((0, 0), []) = ((op, arg), name).
+Proof. exact global_lookup. Qed.
+Print Assumptions C11_global_lookup.
+
+(* the same for the `_typenames` table and search_in_typenames *)
+Theorem C11_typename_lookup : forall ts,
+  NoDup (map snd ts) -> Forall typename_ok ts -> Forall (fun t : trec => bytes_pos (snd t)) ts ->
+  forall ti name, In (ti, name) ts ->
+  exists i, C25.Gen.gen_search_in (map (fun d => nkey (snd d)) (decoded_typenames ts)) (nkey name) = Some i
+            /\ nth i (decoded_typenames ts) (0, []) = (ti, name).
+Proof. exact typename_lookup. Qed.
+Print Assumptions C11_typename_lookup.
+
+(* generic form (any record type with a name; used for both tables above; it also covers _struct_unions and
+   _enums once their records are read back by C11_struct_record / C11_enum_record) *)
+Theorem C11_sorted_table_lookup : forall (A : Type) (name_of : A -> list Z) (rs : list A) (d : A),
+  NoDup (map name_of rs) -> Forall (fun r => bytes_pos (name_of r)) rs ->
+  forall r, In r rs ->
+  exists i, C25.Gen.gen_search_in (map (fun r => nkey (name_of r)) (sort_records (fun r => nkey (name_of r)) rs))
+                                  (nkey (name_of r)) = Some i
+            /\ (i < List.length rs)%nat /\ nth i (sort_records (fun r => nkey (name_of r)) rs) d = r.
+Proof. exact @sorted_table_lookup. Qed.
+Print Assumptions C11_sorted_table_lookup.
+
+Example C11_lookup_example :
+  let gs := [(11, -1, [102; 111; 111; 95]); (13, 2, [102; 111; 111]); (11, -1, [102; 111; 112])] in
+  decoded_globals gs = [((13, 2), [102; 111; 111]); ((11, -1), [102; 111; 111; 95]); ((11, -1), [102; 111; 112])] /\
+  map (C25.Gen.gen_search_in (map (fun d => nkey (snd d)) (decoded_globals gs)))
+      [nkey [102; 111; 111; 95]; nkey [102; 111; 111]; nkey [102; 111; 112]; nkey [102; 111]]
+  = [Some 1%nat; Some 0%nat; Some 2%nat; None].
+Proof. vm_compute. split; reflexivity. Qed.
 
 (* non-vacuity *)
 Example C11_example :
